@@ -43,33 +43,47 @@ def _fn_ast(fn):
     return ast.parse(textwrap.dedent(inspect.getsource(fn)))
 
 
+def _consts(t, typ):
+    """every constant of type `typ` in the function, in source order, duplicates removed (independent of whether the code keeps them in a
+    list, a tuple, a module-level name's default or inline: a harmless re-layout of the literals must not change what is read)"""
+    cs = sorted(((n.lineno, n.col_offset, n.value) for n in ast.walk(t) if isinstance(n, ast.Constant) and type(n.value) is typ
+                 and not isinstance(getattr(n, "_parent", None), ast.Expr)), key=lambda x: x[:2])
+    out = []
+    for _, _, v in cs:
+        if v not in out:
+            out.append(v)
+    return out
+
+
+def _mark_parents(t):
+    for n in ast.walk(t):
+        for c in ast.iter_child_nodes(n):
+            c._parent = n
+    return t
+
+
 def heuristics_literals():
     """URL prefixes, file extensions, shell characters, the guard length and the encode error handler."""
     from bs4 import BeautifulSoup
     out = dict(prefixes=[], extensions=[], shell=[], maxlen=None, strict=True)
     try:
-        t = _fn_ast(BeautifulSoup._markup_is_url.__func__)
-        for n in ast.walk(t):
-            if isinstance(n, ast.Tuple) and n.elts and all(isinstance(e, ast.Constant) and isinstance(e.value, bytes) for e in n.elts):
-                out["prefixes"] = [list(e.value) for e in n.elts]
-        strs = []
-        for n in ast.walk(t):
-            if isinstance(n, ast.Tuple) and n.elts and all(isinstance(e, ast.Constant) and isinstance(e.value, str) for e in n.elts):
-                strs = [[ord(c) for c in e.value] for e in n.elts]
-        if strs != out["prefixes"]:
-            out["prefixes"] = []  # bytes and str branches differ: the model's single list does not apply
+        t = _mark_parents(_fn_ast(BeautifulSoup._markup_is_url.__func__))
+        bs = [list(v) for v in _consts(t, bytes) if v.endswith(b":") and len(v) > 1]
+        ss = [[ord(c) for c in v] for v in _consts(t, str) if v.endswith(":") and len(v) > 1 and " " not in v]
+        out["prefixes"] = bs if bs == ss else []  # bytes and str branches differ: the model's single list does not apply
     except Exception:
         pass
     try:
-        t = _fn_ast(BeautifulSoup._markup_resembles_filename.__func__)
+        t = _mark_parents(_fn_ast(BeautifulSoup._markup_resembles_filename.__func__))
+        bs = _consts(t, bytes)
+        exts = [list(v) for v in bs if v.startswith(b".") and len(v) > 1]
+        if not exts:
+            exts = [[ord(c) for c in v] for v in _consts(t, str) if v.startswith(".") and len(v) > 1 and " " not in v]
+        out["extensions"] = exts
+        shell = [v for v in bs if len(v) >= 3 and not v.startswith(b".")]
+        out["shell"] = list(shell[0]) if len(shell) == 1 else []
         for n in ast.walk(t):
-            if isinstance(n, ast.Assign) and any(isinstance(x, ast.Name) and x.id == "extensions" for x in n.targets):
-                out["extensions"] = [list(e.value) for e in n.value.elts]
-            if (isinstance(n, ast.Compare) and isinstance(n.left, ast.Name) and n.left.id == "byte"
-                    and isinstance(n.ops[0], ast.In) and isinstance(n.comparators[0], ast.Constant)):
-                out["shell"] = list(n.comparators[0].value)
-            if (isinstance(n, ast.Call) and isinstance(n.func, ast.Attribute) and n.func.attr == "encode"
-                    and isinstance(n.func.value, ast.Name) and n.func.value.id == "markup"):
+            if isinstance(n, ast.Call) and isinstance(n.func, ast.Attribute) and n.func.attr == "encode":
                 out["strict"] = not (len(n.args) >= 2 or any(k.arg == "errors" for k in n.keywords))
     except Exception:
         pass
